@@ -14,6 +14,7 @@ import (
 	"fmt"
 	"io"
 	"io/ioutil"
+	"net/http/httptest"
 	"os"
 	"path/filepath"
 	"strconv"
@@ -349,6 +350,141 @@ func TestVerifC01(t *testing.T) {
 		var descs []string
 		nops := 1 + r.Intn(5)
 		queue := []string{}
+		// Overlapping requests (drawn from a second random stream, so that the sequential part of a case
+		// does not depend on it): a real pool of 2-3 buffers replaces the single shared slice, and some
+		// requests are stalled -- a GET/HEAD inside the first Write of its response, a PUT in the middle
+		// of its body -- while 1-2 other complete requests run on the same router and every buffer that
+		// is in the pool at that moment is overwritten (ksPool.scribble).  The stalled GET has done its
+		// volume work when it starts to write, the stalled PUT has not started it, so the case is still a
+		// request SEQUENCE for the model: [GET; nested...] resp. [nested...; PUT].
+		rv := vNewRand(seed*1000003 + uint64(i)*7919 + 99991)
+		overlap := !bigMode && rv.Chance(2, 5)
+		var pool *ksPool
+		scribbleN := 256
+		if overlap {
+			pool = ksInstallPool(env.quiet, 2+rv.Intn(2))
+			for _, b := range blocks {
+				if len(b.data)+200 > scribbleN {
+					scribbleN = len(b.data) + 200
+				}
+			}
+			tags = append(tags, "overlap-mode")
+		}
+		// perform sends one request and appends it (and, through `nested`, the requests that ran while it
+		// was stalled) to ops/obs in the order in which they took effect.
+		var perform func(rr *vRand, kind string, b *c01Block, bidx int, nested func()) int
+		perform = func(rr *vRand, kind string, b *c01Block, bidx int, nested func()) int {
+			var code int
+			var gop, gbody, gcl string
+			gbody, gcl = "None", "None"
+			slot := -1
+			var slotAfter [][]string
+			slotExtra := 0
+			switch kind {
+			case "GET", "HEAD":
+				var rr2 *httptest.ResponseRecorder
+				if nested != nil {
+					sw := &ksSlowWriter{ResponseRecorder: httptest.NewRecorder()}
+					sw.hook = func() {
+						slot = len(ops)
+						slotAfter, slotExtra = listing()
+						ops, obs, descs = append(ops, ""), append(obs, ""), append(descs, "")
+						nested()
+					}
+					env.serve(sw, kind, "/"+b.hash, nil, -1, false)
+					rr2 = sw.ResponseRecorder
+					tags = append(tags, "stalled="+kind)
+				} else {
+					rr2 = env.do(kind, "/"+b.hash, nil, -1, false)
+				}
+				code = rr2.Code
+				if code == 200 {
+					gbody = "(Some " + tab.bytes(rr2.Body.Bytes()).g() + ")"
+				}
+				if v, err := strconv.ParseInt(rr2.Header().Get("Content-Length"), 10, 64); err == nil && v >= 0 {
+					gcl = fmt.Sprintf("(Some %d)", v)
+				}
+				if kind == "GET" {
+					gop = "Get " + gStr(b.hash)
+				} else {
+					gop = "Head " + gStr(b.hash)
+				}
+			default:
+				var body io.Reader
+				var clen int64 = -1
+				var c *c01Content
+				var d []byte
+				switch kind {
+				case "PUT":
+					if b.big {
+						body, clen = io.LimitReader(zeroReader{}, BlockSize), BlockSize
+						// same key as the listing will compute for the file on disk
+						if c01BigSHA == "" {
+							s := sha256.New()
+							io.CopyN(s, zeroReader{}, BlockSize)
+							c01BigSHA = hex.EncodeToString(s.Sum(nil))
+						}
+						c = tab.add("big:"+c01BigSHA+":"+strconv.Itoa(BlockSize), BlockSize, b.hash, nil)
+					} else {
+						d = b.data
+						body, c = bytes.NewReader(b.data), tab.bytes(b.data)
+					}
+				case "PUTCOLL":
+					d = c01CollB
+					body, c = bytes.NewReader(c01CollB), tab.bytes(c01CollB)
+				case "PUTWRONG":
+					switch {
+					case len(blocks) > 1 && !blocks[1-bidx].big && rr.Bool():
+						d = blocks[1-bidx].data
+					case !b.big && len(b.data) > 0 && rr.Bool():
+						d = append([]byte(nil), b.data...)
+						d[rr.Intn(len(d))] ^= 1 << uint(rr.Intn(8))
+					default:
+						d = c01RandBytes(rr, rr.Intn(80))
+						if !b.big && bytes.Equal(d, b.data) {
+							d = append(d, 'x')
+						}
+					}
+					if d == nil {
+						d = []byte{}
+					}
+					body, c = bytes.NewReader(d), tab.bytes(d)
+				case "PUTLONG":
+					sz := int64(BlockSize + 1 + rr.Intn(5))
+					body, clen = io.LimitReader(zeroReader{}, sz), sz
+					c = tab.add(fmt.Sprintf("oversize:%d", sz), sz, "oversize", nil)
+				}
+				if nested != nil && d != nil && len(d) > 0 {
+					body, clen = &ksSlowBody{data: d, cut: rv.Intn(len(d) + 1), hook: nested}, int64(len(d))
+					tags = append(tags, "stalled=PUT")
+				}
+				rr2 := env.do("PUT", "/"+b.hash, body, clen, false)
+				code = rr2.Code
+				gop = "Put " + gStr(b.hash) + " " + c.g()
+			}
+			var rows []string
+			extra := slotExtra
+			after := slotAfter
+			if slot < 0 {
+				after, extra = listing()
+			}
+			rows = make([]string, len(after))
+			for k, row := range after {
+				rows[k] = gList(row)
+			}
+			o := fmt.Sprintf("O %d %s %s %s %d", code, gbody, gcl, gList(rows), extra)
+			dsc := fmt.Sprintf("%s %s -> %d", kind, b.hash[:6], code)
+			if slot < 0 {
+				ops, obs, descs = append(ops, gop), append(obs, o), append(descs, dsc)
+			} else {
+				ops[slot], obs[slot], descs[slot] = gop, o, dsc+" (stalled in its first Write while the following ran)"
+			}
+			tags = append(tags, "op="+kind, fmt.Sprintf("%s=%dxx", kind, code/100))
+			if code/100 != 2 && (kind == "PUT" || kind == "GET") {
+				interesting = true
+			}
+			return code
+		}
 		for len(ops) < nops+3 && (len(ops) < nops || len(queue) > 0) {
 			var kind string
 			b := blocks[r.Intn(len(blocks))]
@@ -382,81 +518,25 @@ func TestVerifC01(t *testing.T) {
 				}
 			}
 			var code int
-			var gop, gbody, gcl string
-			gbody, gcl = "None", "None"
-			switch kind {
-			case "GET", "HEAD":
-				rr := env.do(kind, "/"+b.hash, nil, -1, false)
-				code = rr.Code
-				if code == 200 {
-					gbody = "(Some " + tab.bytes(rr.Body.Bytes()).g() + ")"
-				}
-				if v, err := strconv.ParseInt(rr.Header().Get("Content-Length"), 10, 64); err == nil && v >= 0 {
-					gcl = fmt.Sprintf("(Some %d)", v)
-				}
-				if kind == "GET" {
-					gop = "Get " + gStr(b.hash)
-				} else {
-					gop = "Head " + gStr(b.hash)
-				}
-			default:
-				var body io.Reader
-				var clen int64 = -1
-				var c *c01Content
-				switch kind {
-				case "PUT":
-					if b.big {
-						body, clen = io.LimitReader(zeroReader{}, BlockSize), BlockSize
-						// same key as the listing will compute for the file on disk
-						if c01BigSHA == "" {
-							s := sha256.New()
-							io.CopyN(s, zeroReader{}, BlockSize)
-							c01BigSHA = hex.EncodeToString(s.Sum(nil))
+			if overlap && rv.Chance(3, 4) {
+				nested := func() {
+					for j, k := 0, 1+rv.Intn(2); j < k; j++ {
+						nbi := rv.Intn(len(blocks))
+						if len(blocks) > 1 && rv.Chance(2, 3) {
+							nbi = 1 - bidx
 						}
-						c = tab.add("big:"+c01BigSHA+":"+strconv.Itoa(BlockSize), BlockSize, b.hash, nil)
-					} else {
-						body, c = bytes.NewReader(b.data), tab.bytes(b.data)
+						nkind := []string{"GET", "GET", "PUT", "PUT", "PUTWRONG", "HEAD"}[rv.Intn(6)]
+						perform(rv, nkind, blocks[nbi], nbi, nil)
+						tags = append(tags, "nested="+nkind)
 					}
-				case "PUTCOLL":
-					body, c = bytes.NewReader(c01CollB), tab.bytes(c01CollB)
-				case "PUTWRONG":
-					var d []byte
-					switch {
-					case len(blocks) > 1 && !blocks[1-bidx].big && r.Bool():
-						d = blocks[1-bidx].data
-					case !b.big && len(b.data) > 0 && r.Bool():
-						d = append([]byte(nil), b.data...)
-						d[r.Intn(len(d))] ^= 1 << uint(r.Intn(8))
-					default:
-						d = c01RandBytes(r, r.Intn(80))
-						if !b.big && bytes.Equal(d, b.data) {
-							d = append(d, 'x')
-						}
-					}
-					body, c = bytes.NewReader(d), tab.bytes(d)
-				case "PUTLONG":
-					sz := int64(BlockSize + 1 + r.Intn(5))
-					body, clen = io.LimitReader(zeroReader{}, sz), sz
-					c = tab.add(fmt.Sprintf("oversize:%d", sz), sz, "oversize", nil)
+					tags = append(tags, fmt.Sprintf("pool-buffers-overwritten=%d", pool.scribble(scribbleN)))
 				}
-				rr := env.do("PUT", "/"+b.hash, body, clen, false)
-				code = rr.Code
-				gop = "Put " + gStr(b.hash) + " " + c.g()
-				if code == 200 && len(queue) == 0 {
-					queue = append(queue, fmt.Sprintf("GET:%d", bidx))
-				}
+				ksOneP(func() { code = perform(r, kind, b, bidx, nested) })
+			} else {
+				code = perform(r, kind, b, bidx, nil)
 			}
-			after, extra := listing()
-			rows := make([]string, len(after))
-			for k, row := range after {
-				rows[k] = gList(row)
-			}
-			ops = append(ops, gop)
-			obs = append(obs, fmt.Sprintf("O %d %s %s %s %d", code, gbody, gcl, gList(rows), extra))
-			descs = append(descs, fmt.Sprintf("%s %s -> %d", kind, b.hash[:6], code))
-			tags = append(tags, "op="+kind, fmt.Sprintf("%s=%dxx", kind, code/100))
-			if code/100 != 2 && (kind == "PUT" || kind == "GET") {
-				interesting = true
+			if code == 200 && strings.HasPrefix(kind, "PUT") && len(queue) == 0 {
+				queue = append(queue, fmt.Sprintf("GET:%d", bidx))
 			}
 		}
 		// ---- emit ----
